@@ -70,6 +70,13 @@ def handle (op : String) (args : List Sx) : Option Sx :=
     let s ← asCodes s
     pure (.list [ofCodes (expandvars e s), ofCodes (expandPath e s), ofBool (tildePrefix e s)])
   | "c04.strip", [s] => do pure (ofCodes (strip (← asCodes s)))
+  | "c04.captured", [out, table] => do
+    -- table: what the per-line splitter answers for each line ( (line tokens) … )
+    let tbl ← asListOf (fun
+      | .list [l, ts] => do pure (← asCodes l, ← asListOf asCodes ts)
+      | _ => none) table
+    let out ← asCodes out
+    pure (.list [ofStrs (capturedInject (fun l => (tbl.lookup l).getD []) out), ofStrs (pySplitlines out)])
   | "c04.cmd", [env, globs, keeps, atoms, bang] => do
     let e ← decEnv env
     let flags : Option (List Bool) := (asListOf asBool keeps).bind (fun l => if l.length == 3 then some l else none)
